@@ -103,11 +103,29 @@ def main():
                 getattr(r, "checksum", None)]
 
     def drive_batch(b, validate, recs):
-        if validate and not b.validate_crc():
-            raise CorruptRecordException("Invalid CRC")
-        for r in b:
-            recs.append(canon(r))
+        if validate:
+            ok = b.validate_crc()
+            pre_crc.append(bool(ok))
+            if not ok:
+                raise CorruptRecordException("Invalid CRC")
+        else:
+            try:
+                pre_crc.append(bool(b.validate_crc()))
+            except Exception as e:  # noqa: BLE001
+                pre_crc.append("raise:" + type(e).__name__)
+        try:
+            for r in b:
+                recs.append(canon(r))
+        finally:
+            # the checksum verdict stays available after the batch was iterated (completely or up to an error):
+            # asking again must neither crash nor read outside the buffer, nor turn an invalid batch into a valid one
+            try:
+                post_crc.append(bool(b.validate_crc()))
+            except BaseException as e:  # noqa: BLE001
+                post_crc.append("raise:" + type(e).__name__)
 
+    post_crc = []
+    pre_crc = []
     signal.signal(signal.SIGPROF, _alarm)   # CPU-time limit: immune to a loaded machine
     pending_free = []
     emit({"hello": impl, "pid": os.getpid(), "start": start})
@@ -126,6 +144,8 @@ def main():
             continue
         data = bytes.fromhex(c["hex"])
         recs = []
+        del post_crc[:]
+        del pre_crc[:]
         last_codec_exc[0] = None
         ptr = None
         status = None
@@ -182,7 +202,7 @@ def main():
             for q in pending_free:
                 libc.free(q)
             del pending_free[:]
-        emit({"id": c["id"], "idx": idx, "status": status, "recs": recs,
+        emit({"id": c["id"], "idx": idx, "status": status, "recs": recs, "post_crc": list(post_crc), "pre_crc": list(pre_crc),
               "msg": msg if status.startswith("raise") else "", "nbatches": nbatches,
               "asan_log_end": log_size()})
     emit({"bye": True})
